@@ -1721,7 +1721,7 @@ class StringEncoded(Adapter):
         try:
             return obj.decode(self.encoding)
         except:
-            raise StringError(f"cannot use encoding {self.encoding!r} to decode {obj!r}")
+            raise StringError(f"cannot use encoding {self.encoding!r} to decode {obj!r}", path=path)
 
     def _encode(self, obj, context, path):
         if not isinstance(obj, str):
@@ -1731,7 +1731,7 @@ class StringEncoded(Adapter):
         try:
             return obj.encode(self.encoding)
         except:
-            raise StringError(f"cannot use encoding {self.encoding!r} to encode {obj!r}")
+            raise StringError(f"cannot use encoding {self.encoding!r} to encode {obj!r}", path=path)
 
     def _emitparse(self, code):
         raise NotImplementedError
